@@ -288,3 +288,49 @@ func isParamOrCaptured(v ssa.Value, fn *ssa.Function, idx int) bool {
 	}
 	return inner && accessPath(v) == "P:"+fn.Params[idx].Name()
 }
+
+// litOf resolves v to the composite literal (Alloc) that builds it: directly, or through a static call to a repo helper
+// whose single composite literal of that type is what it returns (a constructor). For the latter the substitution maps
+// the helper's parameter paths to the argument paths of the call.
+func litOf(v ssa.Value) (*ssa.Alloc, *factSub) {
+	if a := allocOf(v); a != nil {
+		return a, nil
+	}
+	cv, ok := resolve(v).(*ssa.Call)
+	if !ok {
+		if ex, isEx := resolve(v).(*ssa.Extract); isEx {
+			cv, _ = ex.Tuple.(*ssa.Call)
+		}
+	}
+	if cv == nil {
+		return nil, nil
+	}
+	h := staticCallee(cv)
+	if h == nil || h.Blocks == nil || h.Pkg == nil || !strings.HasPrefix(h.Pkg.Pkg.Path(), "github.com/godaddy/asherah/") {
+		return nil, nil
+	}
+	var lit *ssa.Alloc
+	n := 0
+	for _, r := range returnsOf(h) {
+		if len(r.Results) == 0 {
+			continue
+		}
+		rv := resolve(returnedValue(r, 0))
+		if ld, isLd := rv.(*ssa.UnOp); isLd { // struct returned by value: *complit
+			rv = ld.X
+		}
+		if a, isA := rv.(*ssa.Alloc); isA {
+			lit = a
+			n++
+		} else if !isNilConst(strip(rv)) {
+			return nil, nil
+		}
+	}
+	if n != 1 {
+		return nil, nil
+	}
+	return lit, callSub(h, &cv.Call)
+}
+
+// pathIn: access path of v (a value of the literal's frame) translated by sub into the caller's frame.
+func pathIn(sub *factSub, v ssa.Value) string { return trimAddr(sub.apply(accessPath(v))) }
